@@ -22,6 +22,7 @@ outcome REFUSED; only an out-of-domain or incomplete suggestion is a violation.
 """
 import math
 import random
+import signal
 
 import numpy as np
 
@@ -48,7 +49,7 @@ ASSUMPTIONS = [
     'INTEGER ranges wider than 10^4 (2*10^3 for continuifying designers) are not generated',
     'GP designers: a handful of cases in quick, tens in thorough (seconds per suggestion)',
     'policy/service routes of RANDOM_SEARCH, SHUFFLED_GRID_SEARCH, EAGLE_STRATEGY, QUASI_RANDOM_SEARCH are '
-    'seeded from the clock / OS by the repository: replay of such a case re-runs it up to 25 times',
+    'seeded from the clock / OS by the repository: replay of such a case re-runs it up to 25 times (GP: 3)',
     'reads of private designer attributes are used only to label the phase (seed / model) of a suggestion',
 ]
 
@@ -146,7 +147,7 @@ def _opts_for(rng, algo, route, nparams, gp, tier):
     o['resolution'] = rng.choice([1, 2, 3, 10, 10, 17])
   elif algo == 'EAGLE_STRATEGY':
     o['max_pool_size'] = rng.choice([None, 1, 2, 3, 5])
-    o['infeasible_force_factor'] = rng.choice([0.0, 0.0, 0.1])
+    o['infeasible_force_factor'] = rng.choice([0.0] * 19 + [0.1])
     o['explore_rate'] = rng.choice([1.0, 1.0, 1.5, 0.5])
     o['perturbation'] = rng.choice([0.1, 0.1, 0.5, 2.0])
   elif algo == 'NSGA2':
@@ -167,6 +168,7 @@ def _opts_for(rng, algo, route, nparams, gp, tier):
   elif algo in GPS:
     o['max_evaluations'] = rng.choice([1000, 2000, 5000])
     o['num_seed_trials'] = rng.choice([1, 1, 2, 3])
+    o['padding'] = rng.random() < 0.3
     if algo == 'GP_UCB_PE':
       o['set_acquisition'] = rng.random() < 0.35
   return o
@@ -474,6 +476,12 @@ def make_designer(case, problem, hooks):
     import jax
     from vizier._src.algorithms.optimizers import eagle_strategy as es
     from vizier._src.algorithms.optimizers import vectorized_base as vb
+    from vizier.pyvizier.converters import padding
+    kw = {}
+    if o.get('padding'):
+      kw['padding_schedule'] = padding.PaddingSchedule(
+          num_trials=padding.PaddingType.MULTIPLES_OF_10,
+          num_features=padding.PaddingType.POWERS_OF_2)
     if algo == 'GAUSSIAN_PROCESS_BANDIT':
       from vizier._src.algorithms.designers import gp_bandit
       fac = vb.VectorizedOptimizerFactory(
@@ -482,7 +490,7 @@ def make_designer(case, problem, hooks):
           max_evaluations=o['max_evaluations'], suggestion_batch_size=25)
       return gp_bandit.VizierGPBandit(
           problem, acquisition_optimizer_factory=fac,
-          num_seed_trials=o['num_seed_trials'], rng=jax.random.PRNGKey(seed))
+          num_seed_trials=o['num_seed_trials'], rng=jax.random.PRNGKey(seed), **kw)
     from vizier._src.algorithms.designers import gp_ucb_pe
     fac = vb.VectorizedOptimizerFactory(
         strategy_factory=es.VectorizedEagleStrategyFactory(
@@ -492,7 +500,8 @@ def make_designer(case, problem, hooks):
         problem, acquisition_optimizer_factory=fac,
         num_seed_trials=o['num_seed_trials'], rng=jax.random.PRNGKey(seed),
         config=gp_ucb_pe.UCBPEConfig(
-            optimize_set_acquisition_for_exploration=bool(o.get('set_acquisition'))))
+            optimize_set_acquisition_for_exploration=bool(o.get('set_acquisition'))),
+        **kw)
   raise ValueError(algo)
 
 
@@ -802,11 +811,39 @@ def run_service(ctx, case):
 ROUTES = {'designer': run_designer, 'policy': run_policy, 'service': run_service}
 
 
+class CaseTimeout(Exception):
+  """Raised by the per-case alarm: the repository code did not return."""
+
+
+def _on_alarm(signum, frame):
+  raise CaseTimeout('no answer within the per-case time limit')
+
+
 def run_case(ctx, case, index=None):
   if case['negative']:
     ctx.count('negative_slice_cases')
   _history_counters(ctx, case)
-  checked, outcome = ROUTES[case['route']](ctx, case)
+  # A designer that never returns (seen: EagleStrategyDesigner with
+  # infeasible_force_factor > 0 spins in FireflyPool.get_next_moving_fly_copy)
+  # is neither a suggestion nor an error; it is counted and the case ends.
+  if case['algo'] in GPS:
+    limit = 400
+  elif case['algo'] in ('HARMONICA', 'BOCS', 'CMA_ES'):
+    limit = 30 if ctx.tier == 'quick' else 60
+  else:
+    limit = 10 if ctx.tier == 'quick' else 30
+  old = signal.signal(signal.SIGALRM, _on_alarm)
+  signal.setitimer(signal.ITIMER_REAL, limit)
+  try:
+    checked, outcome = ROUTES[case['route']](ctx, case)
+  except CaseTimeout as e:
+    checked, outcome = 0, _refused(ctx, case, 'anywhere', e)
+  finally:
+    signal.setitimer(signal.ITIMER_REAL, 0)
+    signal.signal(signal.SIGALRM, old)
+  if outcome[0] == 'REFUSED' and outcome[2] == 'CaseTimeout':
+    ctx.count(f'case_timeouts:{case["name"]}:{case["route"]}')
+    ctx.note(f'per-case time limit hit: {case["name"]} via {case["route"]} opts={case["opts"]}')
   ctx.case(abstraction(case), nontrivial=checked > 0)
   ctx.count('outcome:' + outcome[0])
   if outcome[0] == 'REFUSED' and not case['negative']:
@@ -848,10 +885,11 @@ def default_seed_case(ctx, case):
         want = 'True' if want else 'False'
       if v != want and not (isinstance(want, (int, float)) and not isinstance(v, str)
                             and float(v) == float(want)):
-        ctx.violation(
-            f'configured-default-not-used:{_kind_tag(p)}',
-            f'get_default_parameters chose {v!r} for {p["name"]} whose default is {want!r}',
-            case, {'chosen': v, 'default': want})
+        # documented ("suggest the default or center") but not part of the
+        # property text: reported as a counter, never as a violation.
+        ctx.count('configured_default_not_used')
+        ctx.note(f'get_default_parameters chose {v!r} for a {_kind_tag(p)} parameter '
+                 f'whose configured default is {want!r}')
 
 
 def oracle_selftest(ctx):
@@ -912,12 +950,6 @@ def gp_case(ctx, j):
                       for _ in range(3 if ctx.tier == 'quick' else 5)]
     return case
   case = gen_case(rng, algo, route, ctx.tier, gp=True, name=name)
-  if j < len(_GP_PLAN) and case['history'] == [] and len(case['rounds']) < 2:
-    # the first pass over the plan must reach the model phase
-    case['history'] = _history_for(random.Random(case['seed']), algo, case['desc'],
-                                   len(case['metrics']), route, True, case['mcls']) or [
-        {'p': gen.sample_point(random.Random(case['seed'] + k), case['desc']),
-         's': 'C', 'm': [0.1 * k] * len(case['metrics'])} for k in range(3)]
   if j < len(_GP_PLAN):
     # completed feasible trials in the history guarantee the model phase
     if sum(1 for e in case['history'] if e['s'] == 'C') < 3:
@@ -997,7 +1029,7 @@ def replay(ctx, case):
     default_seed_case(ctx, case)
     return
   unseeded = case['route'] != 'designer'
-  for _ in range(25 if unseeded else 1):
+  for _ in range((3 if case['algo'] in GPS else 25) if unseeded else 1):
     run_case(ctx, case)
     if ctx.violations:
       break
